@@ -177,7 +177,7 @@ impl Check for ControllerExt {
     fn property_of(&self, check: &str) -> std::vec::Vec<&'static str> {
         // who may schedule / cancel / execute is C09's clause (the controller example's roles); the rest is C08
         if check.starts_with("roles.") {
-            vec!["C09"]
+            vec!["C06", "C09"]
         } else if check == "fail.no_trace" || check.starts_with("live.") || check.starts_with("refine.") {
             vec!["C08", "C09"]
         } else {
